@@ -131,11 +131,13 @@ def S(name):
 
 # ----------------------------------------------------------------------------- executables
 
-def run_lines(binary, lines, timeout=3600, chunk=200000):
-    """Feed request lines to a line-protocol executable; returns the parsed JSON answers."""
+def run_lines(binary, lines, timeout=3600, chunk=200000, prefix=()):
+    """Feed request lines to a line-protocol executable; returns the parsed JSON answers.
+    `prefix` lines (session state such as the Unicode table) are sent first in every chunk."""
     out = []
-    for i in range(0, len(lines), chunk):
-        part = lines[i:i + chunk]
+    prefix = list(prefix)
+    for i in range(0, max(len(lines), 1), chunk):
+        part = prefix + lines[i:i + chunk]
         p = subprocess.run([binary], input="\n".join(part) + "\n", stdout=subprocess.PIPE,
                            stderr=subprocess.PIPE, text=True, timeout=timeout, env=ENV)
         if p.returncode != 0:
@@ -143,26 +145,38 @@ def run_lines(binary, lines, timeout=3600, chunk=200000):
         got = [json.loads(l) for l in p.stdout.splitlines() if l.strip()]
         if len(got) != len(part):
             raise InfraError("%s answered %d of %d requests" % (binary, len(got), len(part)))
-        out.extend(got)
+        out.extend(got[len(prefix):])
     return out
 
 
-_UNICODE_ALPHABET = "éÉßöÖǅǆàÀñÑ  中"
+def _nonascii(v, acc):
+    if isinstance(v, str):
+        for ch in v:
+            if ord(ch) > 127:
+                acc.add(ch)
+    elif isinstance(v, (list, tuple)):
+        for x in v:
+            _nonascii(x, acc)
 
 
-def unicode_table():
-    """Unicode facts for the non-ASCII alphabet of the generators, computed by Rust std."""
-    ans = run_lines(RUNNER_BIN, [json.dumps({"op": "unicode", "chars": _UNICODE_ALPHABET})])[0]["ok"]
-    return ans
+def unicode_table(chars):
+    """Unicode facts for the given non-ASCII characters, computed by Rust std (char::is_uppercase,
+    is_lowercase, str::to_lowercase / to_uppercase of the one-char string, is_whitespace)."""
+    if not chars:
+        return []
+    return run_lines(RUNNER_BIN, [json.dumps({"op": "unicode", "chars": "".join(sorted(chars))})])[0]["ok"]
 
 
 def model(requests, with_unicode=True):
-    """requests: list of python s-expression values; returns JSON answers of the Lean model."""
+    """requests: list of python s-expression values; returns JSON answers of the Lean model.
+    The model's Unicode parameter is instantiated with a table for exactly the non-ASCII characters
+    that occur in the requests."""
     lines = [sx(r) for r in requests]
     if with_unicode:
-        rows = [[r[0], r[1], r[2], r[3], r[4], r[5]] for r in unicode_table()]
-        lines = [sx([S("unicode"), rows])] + lines
-        return run_lines(MODEL_BIN, lines)[1:]
+        acc = set()
+        _nonascii(requests, acc)
+        rows = [[r[0], r[1], r[2], r[3], r[4], r[5]] for r in unicode_table(acc)]
+        return run_lines(MODEL_BIN, lines, prefix=[sx([S("unicode"), rows])])
     return run_lines(MODEL_BIN, lines)
 
 
@@ -259,7 +273,7 @@ def audit(prop, thorough=False):
     theorems = {}
     if rc != 0:
         problems.append("axiom audit failed: " + aout[-2000:])
-    for m in re.finditer(r"'([^']+)' (does not depend on any axioms|depends on axioms: \[([^\]]*)\])", aout):
+    for m in re.finditer(r"^'(.+?)' (does not depend on any axioms|depends on axioms: \[([^\]]*)\])", aout, re.M):
         axs = [a.strip() for a in (m.group(3) or "").replace("\n", " ").split(",") if a.strip()]
         theorems[m.group(1)] = axs
         bad = [a for a in axs if a not in ALLOWED_AXIOMS]
